@@ -66,13 +66,20 @@ class SymFS:
         self.target = target
         self.is_file = SymBool(z3.Bool("target_is_file"))
         self.is_dir = SymBool(z3.Bool("target_is_dir"))
-        self.nonempty = SymBool(z3.Bool("dir_nonempty"))
+        # content of the target when it is a folder: plain files and / or sub-folders (non-empty = either)
+        self.has_file = SymBool(z3.Bool("dir_has_file"))
+        self.has_subdir = SymBool(z3.Bool("dir_has_subdir"))
+        self.nonempty = SymBool(z3.Or(self.has_file.e, self.has_subdir.e))
         self.parent_is_file = SymBool(z3.Bool("parent_is_file"))
         ctx.assume(z3.Not(z3.And(self.is_file.e, self.is_dir.e)))
         ctx.assume(z3.Implies(self.nonempty.e, self.is_dir.e))
         ctx.assume(z3.Implies(self.parent_is_file.e, z3.And(z3.Not(self.is_file.e), z3.Not(self.is_dir.e))))
         self.mkdirs = []
         self.writes = []
+
+    def listing(self):
+        """Names in the target folder (forks on the two content booleans)."""
+        return (["precious.txt"] if self.has_file else []) + (["subfolder"] if self.has_subdir else [])
 
 
 def _fake_path_class(fs: SymFS):
@@ -92,7 +99,20 @@ def _fake_path_class(fs: SymFS):
         def _is_target(self):
             return self._p.name == pathlib.PurePosixPath(fs.target).name
 
+        def iterdir(self):
+            if not self._is_target():
+                return iter(())
+            return iter([FakePath(self._p / n) for n in fs.listing()])
+
+        def __truediv__(self, other):
+            return FakePath(self._p / os.fspath(other))
+
+        def exists(self):
+            return self.is_file() or self.is_dir()
+
         def is_file(self):
+            if self._p.parent.name == pathlib.PurePosixPath(fs.target).name:
+                return self._p.name == "precious.txt"
             if self._is_target():
                 return fs.is_file
             if pathlib.PurePosixPath(fs.target).parent.name == self._p.name:
@@ -100,6 +120,8 @@ def _fake_path_class(fs: SymFS):
             return False
 
         def is_dir(self):
+            if self._p.parent.name == pathlib.PurePosixPath(fs.target).name:
+                return self._p.name == "subfolder"
             return fs.is_dir if self._is_target() else True
 
         def mkdir(self, parents=False, exist_ok=False):
@@ -152,7 +174,8 @@ def _run_item(cfg, rec):
             warnings.simplefilter("ignore")
             p.set(iu, "Path", _fake_path_class(fs), "pathlib.Path in io_plugin_utils -> symbolic file system")
             fake_os = type("FakeOs", (), {"__getattr__": lambda self, n: getattr(os, n),
-                                          "listdir": lambda self, d: ["x"] if fs.nonempty else []})()
+                                          "listdir": lambda self, d: fs.listing(),
+                                          "scandir": lambda self, d: iter([_fake_path_class(fs)(os.path.join(os.fspath(d), n)) for n in fs.listing()])})()
             p.set(iu, "os", fake_os, "os.listdir in io_plugin_utils -> symbolic directory content")
             if not rec.shims:
                 rec.shims += p.record
@@ -228,7 +251,8 @@ def _run_protect(rec):
         with Patcher() as p:
             p.set(iu, "Path", _fake_path_class(fs), "pathlib.Path -> symbolic file system")
             fake_os = type("FakeOs", (), {"__getattr__": lambda self, n: getattr(os, n),
-                                          "listdir": lambda self, d: ["x"] if fs.nonempty else []})()
+                                          "listdir": lambda self, d: fs.listing(),
+                                          "scandir": lambda self, d: iter([_fake_path_class(fs)(os.path.join(os.fspath(d), n)) for n in fs.listing()])})()
             p.set(iu, "os", fake_os, "os.listdir -> symbolic")
             try:
                 iu.protect_from_overwrite(target, allow_overwrite=allow)
@@ -286,7 +310,8 @@ def replay(data):
 
     if data.get("item") is None and len(data["cfg"].get("items", [])) > 1:
         for it_ in data["cfg"]["items"]:
-            for env_ in ({"target_is_file": True}, {"target_is_dir": True, "dir_nonempty": True}, {"target_is_file": True, "allow_overwrite": True}, {}):
+            for env_ in ({"target_is_file": True}, {"target_is_dir": True, "dir_has_file": True}, {"target_is_dir": True, "dir_has_subdir": True},
+                         {"target_is_file": True, "allow_overwrite": True}, {}):
                 v, d = replay({"item": it_, "env": env_, "cfg": data["cfg"]})
                 if v:
                     return v, d
@@ -309,8 +334,10 @@ def replay(data):
                 target.write_text("precious")
             elif env.get("target_is_dir"):
                 target.mkdir()
-                if env.get("dir_nonempty"):
-                    (target / "x").write_text("precious")
+                if env.get("dir_has_file") or env.get("dir_nonempty"):
+                    (target / "precious.txt").write_text("precious")
+                if env.get("dir_has_subdir"):
+                    (target / "subfolder").mkdir()
         allow = bool(env.get("allow_overwrite"))
         before = {str(p): (p.read_bytes() if p.is_file() else None) for p in Path(d).rglob("*")}
         writes = []
@@ -336,7 +363,8 @@ def replay(data):
                     getattr(pr, cfg["fn"])(_dummy(cfg["fn"]), target, fmt, allow_overwrite=allow)
             except Exception as ex:  # noqa: BLE001
                 exc = ex
-        exists = bool(env.get("target_is_file")) or (bool(env.get("target_is_dir")) and bool(env.get("dir_nonempty")))
+        exists = bool(env.get("target_is_file")) or (bool(env.get("target_is_dir")) and bool(
+            env.get("dir_nonempty") or env.get("dir_has_file") or env.get("dir_has_subdir")))
         after = {str(p): (p.read_bytes() if p.is_file() else None) for p in Path(d).rglob("*")}
         state = f"{cfg.get('name')}: state {env}"
         if exists and not allow:
